@@ -520,7 +520,14 @@ func checkHTML(c *vhlib.Ctx, op, pg, field, marker, payload, body string, render
 					viol("markup:attr-name", fmt.Sprintf("controlled string in an attribute name of <%s>: %q", tok.Data, a.Key))
 				}
 				if strings.Contains(strings.ToLower(a.Val), lm) {
-					if tok.Data == "a" && a.Key == "href" && !strings.HasPrefix(strings.ToLower(strings.TrimSpace(a.Val)), "javascript:") {
+					js := strings.HasPrefix(strings.ToLower(strings.TrimSpace(a.Val)), "javascript:")
+					// inert attribute (not an event handler, style or document source) whose
+					// decoded value is the string exactly as supplied: that is "escaped"
+					inert := !strings.HasPrefix(a.Key, "on") && a.Key != "style" && a.Key != "srcdoc" && !js &&
+						strings.Contains(normNL(a.Val), want)
+					if tok.Data == "a" && a.Key == "href" && !js {
+						*rendered = true
+					} else if inert {
 						*rendered = true
 					} else {
 						viol("markup:attr-value", fmt.Sprintf("controlled string in attribute %s of <%s>: %q", a.Key, tok.Data, a.Val))
